@@ -286,6 +286,8 @@ func (p *Program) Name(f *ssa.Function) string {
 			suffix = "$bound"
 		case strings.HasPrefix(f.Synthetic, "thunk"):
 			suffix = "$thunk"
+		case strings.HasPrefix(f.Synthetic, "wrapper"):
+			suffix = "$wrap"
 		}
 	}
 	if f.Signature != nil && f.Signature.Recv() != nil {
